@@ -62,6 +62,10 @@ static void do_key(char **tok, int n)
     if (n > 2 && !strcmp(tok[2], "rsa")) k = EVP_RSA_gen(2048);
     else if (n > 2 && !strcmp(tok[2], "rsa1024")) k = EVP_RSA_gen(1024);
     else if (n > 2 && !strcmp(tok[2], "ed")) k = EVP_PKEY_Q_keygen(NULL, NULL, "ED25519");
+    else if (n > 2 && !strcmp(tok[2], "ec384")) k = EVP_EC_gen("P-384");
+    else if (n > 2 && !strcmp(tok[2], "ec521")) k = EVP_EC_gen("P-521");
+    else if (n > 2 && !strcmp(tok[2], "rsa3072")) k = EVP_RSA_gen(3072);
+    else if (n > 2 && !strcmp(tok[2], "rsa4096")) k = EVP_RSA_gen(4096);
     else k = EVP_EC_gen("P-256");
     if (!k) { ERR_print_errors_fp(stderr); exit(2); }
     f = fopen(p, "w");
